@@ -223,8 +223,7 @@ C05_OneAttemptPerCall(s, e) == (IsW(e) /\ Running(s) /\ D(s, e.obj).k \in {"act"
     /\ Terminal(e.st) =>
           /\ e.natt = RunCalls(s, e.obj)
           /\ (e.st = CO) <=> (e.last = "ok")
-          /\ e.st = FA => (s.lastOut[e.obj] \in {"perm", "wrongtype", "wrongtr"} \/ RunCalls(s, e.obj) = Retries(s, D(s, e.obj)) + 1
-                           \/ s.lastOut[e.obj] = "none")
+          /\ e.st = FA => (s.lastOut[e.obj] \in {"perm", "wrongtype", "wrongtr"} \/ RunCalls(s, e.obj) = Retries(s, D(s, e.obj)) + 1)
 C05_Recorded(s, e) == (e.ev = "WaitRet" /\ Live(s)) =>
     \A x \in ToSet(e.snap) : (D(s, x.obj).k \in {"act", "cact"} /\ s.inflN[x.obj] = 0 /\ "?" \notin ToSet(s.outs[x.obj])) =>
         /\ x.dig = DigStr(s.outs[x.obj])
